@@ -30,8 +30,10 @@ Model-free oracles (`py_oracle_ex`):
         children in order, merged text), stream end; and the library reports `error` exactly when
         ElementTree raises;
   (iii) H-expat itself on the recorded `cb` traces: the trace of every delivery equals the
-        reference's up to splitting/merging of adjacent character data — reported as
-        "H-expat not met", never absorbed;
+        reference's up to splitting/merging of adjacent character data (and character data directly
+        in front of an error, Spec/ExpatTrace.lean `errTail`), character data is NUL-free,
+        end-element callbacks are matched, no element callback follows a failure — reported as
+        "H-expat:… hypothesis not met on this run", never absorbed;
   plus structural checks (exactly one open per segment before anything else, nothing after close
   but errors).
 """
@@ -51,8 +53,10 @@ TRUSTED = ["model Strophe/Model/Assembly.lean tied to src/parser_expat.c (+ the 
            "expat's tokenisation (hypothesis H-expat, checked on every recorded trace by oracle iii)",
            "xml.etree.ElementTree as the independent namespace-aware parser of oracle (ii)"]
 ASSUMPTIONS = ["H-expat: for a fixed byte stream the raw callback sequences under two chunkings are equal up to "
-               "splitting/merging of adjacent character-data callbacks, errors at the same position, character data "
-               "free of NUL, end-element callbacks never outnumber start-element callbacks",
+               "splitting/merging of adjacent character-data callbacks, errors at the same position (up to character "
+               "data directly in front of the error: expat drops the text in front of a `]]>` seen in one buffer), "
+               "character data free of NUL, end-element callbacks never outnumber start-element callbacks, no element "
+               "callback after a failure until the parser is reset",
                "allocation failure paths and int overflow of the text length (>= 2^31 bytes) are not modelled",
                "parser_reset is called between reads, never from inside a callback (as conn.c/event.c do)",
                "attribute prefixes are discarded by design (Appendix E): generated attributes never collide after "
@@ -515,7 +519,10 @@ def collapse_errors(evs, token="error"):
 
 
 def norm_cbs(cbs):
-    """merge adjacent character-data callbacks; collapse repeated errors"""
+    """normal form of a callback trace under H-expat's equivalence (Spec/ExpatTrace.lean
+    SameUpToCharSplit): adjacent character-data callbacks merged; character data directly in front of
+    an error dropped (expat does not report the text in front of a `]]>` it sees in one buffer, but
+    does when the read ends inside the `]]>`); repeated errors collapsed"""
     out = []
     for c in cbs:
         if c.startswith("cb c ") and out and out[-1].startswith("cb c "):
@@ -523,11 +530,40 @@ def norm_cbs(cbs):
             a = "" if a == "." else a
             b = "" if b == "." else b
             out[-1] = "cb c " + ((a + b) or ".")
-        elif c == "cb err" and out and out[-1] == "cb err":
-            continue
+        elif c == "cb err":
+            if out and out[-1].startswith("cb c "):
+                out.pop()
+            if out and out[-1] == "cb err":
+                continue
+            out.append(c)
         else:
             out.append(c)
     return out
+
+
+def hexpat_local(cbs):
+    """the parts of H-expat that concern ONE trace (one stream): NUL-free character data,
+    end-element callbacks matched, no element callback after a failure.  Returns a message or None."""
+    depth = 0
+    failed = False
+    for c in cbs:
+        if c.startswith("cb c "):
+            h = c[5:]
+            if h != "." and any(h[i:i + 2] == "00" for i in range(0, len(h), 2)):
+                return "nul-in-character-data"
+        elif c.startswith("cb s "):
+            if failed:
+                return "start-element-after-error"
+            depth += 1
+        elif c.startswith("cb e "):
+            if failed:
+                return "end-element-after-error"
+            if depth == 0:
+                return "unmatched-end-element"
+            depth -= 1
+        elif c == "cb err":
+            failed = True
+    return None
 
 
 def hexs(s):
@@ -653,6 +689,9 @@ def py_oracle_ex(ops, outs, extras):
                     cbs += [l for l in extras[i] if l.startswith("cb ")]
             seg_evs.append(collapse_errors(evs))
             seg_cbs.append(norm_cbs(cbs))
+            bad_h = hexpat_local(cbs)
+            if bad_h:
+                fails.append((ops_idx[-1] if ops_idx else a, "H-expat:%s hypothesis not met on this run" % bad_h))
         if bad:
             continue
         key = tuple(segs)
